@@ -286,8 +286,16 @@ pub fn f_map_or(a: u32, b: u32) -> u64 {
     u.wrapping_mul(4) + if t { 2 } else { 0 } + if w { 1 } else { 0 }
 }
 
+pub fn f_from_elem_range_incl(a: u32, b: u32) -> u64 {
+    let v = vec![a.wrapping_mul(3); 3];
+    let r = (2u32..=10).contains(&a) as u64;
+    let t = (b..=b.saturating_add(2)).contains(&a) as u64;
+    v.iter().fold(0u64, |s, x| s.wrapping_mul(7).wrapping_add(*x as u64)) * 4 + r * 2 + t
+}
+
 pub const ALL: &[(&str, fn(u32, u32) -> u64)] = &[
     ("f_iter_sum_loop", f_iter_sum_loop),
+    ("f_from_elem_range_incl", f_from_elem_range_incl),
     ("f_range_loop", f_range_loop),
     ("f_cell", f_cell),
     ("f_binary_search", f_binary_search),
